@@ -25,7 +25,13 @@ LEVEL_TEXT = ("Coq theorems over Gallina models of the interface layer. Componen
               "any history outside the known class C18-selection-while-absent leaves on an interface the daemon holds, "
               "of a family that interface has, enabled by its last matching selection, and carries only addresses in "
               "a subnet of an address of that interface; after an IP check nothing in the cache is attributed to a "
-              "removed interface (for every state). The checker chk_C18 (necessary conditions on a trace) also demands "
+              "removed interface (for every state); and the executable checker chk_C18 ACCEPTS THE RUN OF THE MODEL ON EVERY "
+              "HISTORY (C18_checker_accepts_every_run; hypotheses, all decidable and satisfied by every generated "
+              "history: unique (interface, address) pairs per OS table, netmasks that fit their family, no IPv4 address "
+              "reported on two interfaces anywhere in the history, history outside C18-selection-while-absent), for all "
+              "clauses of the checker: packets, IpAdd/IpDel, addresses of resolved instances (cache invariant: every "
+              "cached address record belongs to an interface the daemon holds), order and last word of IpDel/IpAdd. "
+              "The checker chk_C18 (necessary conditions on a trace) also demands "
               "that every address of a resolved instance was learned on an interface that is not dropped (no entry "
               "enabled, all reported by the OS), and that within one IP check an address is never withdrawn from "
               "the services after it was added (IpDel after IpAdd of an address the OS has on one entry, in an "
@@ -56,7 +62,8 @@ RULE = ("histories of 8-18 iterations over topologies of 1-3 interfaces (+ optio
         "daemon take up the new entry before the IP check that drops the old one (or disables one of the two); then "
         "queries for the auto-address service on the interface that has the address, and unregistration.  "
         "The IpAdd / IpDel events of an iteration are compared as a set plus, for an address with "
-        "several events, their order")
+        "several events, their order.  Every generated history satisfies the hypotheses of "
+        "C18_checker_accepts_every_run (hist_wf_py: unique pairs per table, one interface per IPv4 address)")
 TRUSTED = [
     "Coq 8.16.1 kernel (coqc); vm_compute only in the non-vacuity Examples",
     "axioms: none (Print Assumptions: Closed under the global context for every theorem)",
@@ -74,17 +81,16 @@ TRUSTED = [
     "are removed from the observation; record expiry is outside the histories (TTL 4500 s, histories < 40 s)",
 ]
 PARTIAL = ("Theorems over all histories: C18_invariant_reachable, C18_step_preserves_invariant, "
-           "C18_every_packet_justified (hypotheses: unique (interface, address) pairs per OS table; history outside "
-           "the decidable class known_class = finding C18-selection-while-absent, witness C18_known_class_witness), "
-           "C18_check_forgets_removed_interfaces (every state). NOT a theorem: that the executable checker chk_C18 "
-           "accepts every run of the model (C18_checker_accepts_every_run_partial in Props/C18.v: pkt_just is the "
-           "packet part of chk_C18 on the model's side; missing are the octet round trip of addresses (width "
-           "hypotheses), the identification of the IPv4 egress interface, and the IpAdd/IpDel conditions); chk_C18 is "
-           "run on every trace instead (its conditions on resolved addresses and on the IpDel/IpAdd order are shown "
-           "for the model on the examples C18_dropped_interface_addresses_of_both_families_not_reported and "
-           "C18_moved_address_withdrawn_then_added). The address records of a packet are tied to the interface's "
-           "subnets in the "
-           "history theorem and to the service's address list in the component theorems. IfKind::Predicate and "
+           "C18_every_packet_justified, C18_checker_accepts_every_run (hypotheses: unique (interface, address) pairs per "
+           "OS table; hist_wf = netmasks fit their family and no IPv4 address on two interfaces in the whole history; "
+           "history outside the decidable class known_class = finding C18-selection-while-absent, witness "
+           "C18_known_class_witness), C18_check_forgets_removed_interfaces (every state). The IPv4 hypothesis is needed: "
+           "with one IPv4 address on two interfaces the packet for an enabled interface is seen on the first owner of "
+           "the address (IP_MULTICAST_IF is given an address), also a disabled one - model, checker and the real daemon "
+           "in the simulated world agree on that (C18_same_ipv4_on_two_interfaces_example; outside the property's "
+           "quantifier 'differing subnets'). Not a theorem: the address records of a packet are tied to the "
+           "interface's subnets in the history theorems and to the SERVICE's address list only in the component "
+           "theorems (C18_announcement_only_link_addresses, ...). IfKind::Predicate and "
            "multicast group membership are outside the model. The cache attributes a PTR/SRV/TXT record heard on "
            "several interfaces to the first one only (C18_record_keeps_first_interface); the removal statements are "
            "relative to that attribution; the disable path drops only address records (as the code does).")
@@ -510,12 +516,36 @@ def gen_held(rng, hid):
     return {"id": hid, "t0": T0, "daemons": [{"seed": 1, "ifaces": pool}], "link": "none", "steps": steps}
 
 
+def hist_wf_py(h):
+    """the hypotheses of C18_checker_accepts_every_run on a history (Coq: uniq_keysb / wf_stepsb / hist_wf): every OS
+    table reports an (interface, address/mask) pair once; no IPv4 address is reported on two interfaces anywhere in
+    the history (netmasks always fit their family here)"""
+    tables = [h["daemons"][0]["ifaces"]] + [st["ifaces"] for st in h["steps"] if "ifaces" in st]
+    owner = {}
+    for t in tables:
+        keys = [(e["index"], e["addr"], e.get("mask")) for e in t]
+        if len(keys) != len(set(keys)):
+            return False
+        for e in t:
+            if ":" not in e["addr"] and owner.setdefault(e["addr"], e["index"]) != e["index"]:
+                return False
+    return True
+
+
+def wf_only(gen, rng, hid):
+    """generated histories satisfy the hypotheses of the checker theorem (a violating draw is discarded)"""
+    while True:
+        h = gen(rng, hid)
+        if hist_wf_py(h):
+            return h
+
+
 def generate(rng, tier):
     n = 1500 if tier == "quick" else 30000
     nx = 160 if tier == "quick" else 3000
-    return [Case(jdump(gen_history(rng, "c18-%d" % i)), "history") for i in range(n)] + \
-           [Case(jdump(gen_xfam(rng, "c18x-%d" % i)), "xfam") for i in range(nx)] + \
-           [Case(jdump(gen_held(rng, "c18h-%d" % i)), "held") for i in range(nx)]
+    return [Case(jdump(wf_only(gen_history, rng, "c18-%d" % i)), "history") for i in range(n)] + \
+           [Case(jdump(wf_only(gen_xfam, rng, "c18x-%d" % i)), "xfam") for i in range(nx)] + \
+           [Case(jdump(wf_only(gen_held, rng, "c18h-%d" % i)), "held") for i in range(nx)]
 
 
 # --------------------------------------------------------------------------- observation / model input
